@@ -235,3 +235,11 @@ Example C17_nonvacuous_float :
   nn_greedy_f [(-2)%float; (-4)%float; (-1)%float; 0%float] [(-1)%float; (-2)%float; (-0.5)%float] 0 2
   = Ok (0%float, [2%float; 0%float; 0%float; 0%float]).
 Proof. vm_compute. reflexivity. Qed.
+
+(* one case of the differential run evaluated inside Coq (vm_compute on primitive floats, no extraction):
+   the expected residual and outputs are the bit patterns printed by the implementation *)
+Example C17_impl_case_in_coq :
+  nn_greedy_f [(-0x1.4e6b233d692e8p+6)%float; (-0x1.619c5064ce7ecp+18)%float; (-0x1.e6435040a44f3p+17)%float; (-0x1.7af8da2cfbf73p+18)%float; (-0x1.1701db3bc6478p+19)%float; (-0x1.e8a7a2e3e1b4dp+17)%float; (-0x1.9c7b691475246p+18)%float; (-0x1.195f355939e7bp+18)%float; (-0x1.b8eff41ed7283p+18)%float; (-0x1.c7b7eac868a73p+18)%float; (-0x1.576393a457bf6p+18)%float; (-0x1.ed549857b67d1p+18)%float; (-0x1.24cc5ab4da26dp+19)%float; (-0x1.541a86d1d9bc7p+18)%float; (-0x1.ecdfe191994bep+18)%float]
+              [(-0x0.00000000007e8p-1022)%float; (-0x1.4d8ed4b27a553p+5)%float; (-0x1.ca94d081871e4p+4)%float; (-0x1.6571a24ad16e1p+5)%float; (-0x1.0b3e2710802c5p+5)%float; (-0x1.a1f01095a6d37p+2)%float; (-0x1.bd7c5b9ab6edcp+3)%float; (-0x1.cde9efdec8b3bp+2)%float; (-0x1.6481720800be7p+5)%float; (-0x1.4a868a566a550p+5)%float; (-0x1.0302c5c6fdccap+5)%float; (-0x1.5a1b21c129063p+4)%float; (-0x1.2437984b70a24p+5)%float; (-0x1.c2df5e60b636bp+3)%float; (-0x1.46ab65faec46bp+5)%float] 0 7
+  = Ok ((0x1.719531514edd4p+20)%float, [(0x1.0f63dc4435257p+13)%float; (0x1.62d62927bfbadp+0)%float; 0%float; (0x1.a5923292ef628p+12)%float; 0%float; (0x1.2734eea90c157p+1)%float; 0%float; (0x1.e1d0cd3e06409p+8)%float; 0%float; 0%float; 0%float; 0%float; 0%float; 0%float; 0%float]).
+Proof. vm_compute. reflexivity. Qed.
